@@ -110,7 +110,9 @@ fn main() {
     };
 
     // oracle self-checks: a failure here is a harness defect, not a violation
-    if let Err(e) = model::self_check() {
+    if cold.is_some() {
+        // cold-start child: the parent has checked the oracles; nothing may delay the first calls
+    } else if let Err(e) = model::self_check() {
         println!("HARNESS-DEFECT oracle self-check failed: {}", e);
         exit(2);
     }
